@@ -38,6 +38,7 @@ type recView struct {
 	failKey   string // fail reads of this key, "" with failKeySet=false = off
 	failKeyOn bool
 	triggered bool
+	slow      bool // reads take ~300us: a read error then lands while Fetch is still handing keys to the workers
 }
 
 func (r *recView) GetValue(ctx context.Context, key []byte) ([]byte, error) {
@@ -49,6 +50,9 @@ func (r *recView) GetValue(ctx context.Context, key []byte) ([]byte, error) {
 		r.triggered = true
 	}
 	r.mu.Unlock()
+	if r.slow {
+		time.Sleep(300 * time.Microsecond)
+	}
 	if fail {
 		return nil, errInjected
 	}
@@ -69,6 +73,7 @@ type c24Case struct {
 	FailNth int
 	FailKey []byte `json:",omitempty"`
 	FailOn  bool
+	Slow    bool
 }
 
 func c24Run(c c24Case, st *vstat.Stats) error {
@@ -103,12 +108,15 @@ func c24Run(c c24Case, st *vstat.Stats) error {
 	if overlap && cfg.Fetch >= 2 {
 		labels = append(labels, "overlap+concurrent-fetch")
 	}
+	if c.Slow {
+		labels = append(labels, "slow-reads")
+	}
 	nt := (overlap && cfg.Fetch >= 2 && len(c.Block.Txs) >= 2) || inject
 	raw, _ := json.Marshal(c)
 	st.Case(nt, string(raw), labels...)
 	st.Sample(nt, map[string]any{"txs": len(c.Block.Txs), "cfg": cfg, "failNth": c.FailNth, "failKey": fmt.Sprintf("%x", c.FailKey), "failOn": c.FailOn})
 
-	rv := &recView{View: bb.db, requested: map[string]int{}, failNth: c.FailNth, failKey: string(c.FailKey), failKeyOn: c.FailOn}
+	rv := &recView{View: bb.db, requested: map[string]int{}, failNth: c.FailNth, failKey: string(c.FailKey), failKeyOn: c.FailOn, slow: c.Slow}
 	p, w := fixture.NewProcessor(bb.rules, noReplayWindow(), cfg, fixture.NoEngines{})
 	defer w.Stop()
 	type res struct {
@@ -160,7 +168,38 @@ wait:
 	return compareWithModel(c.Block, bb, r.out, r.err)
 }
 
+// c24GenWide: few txs that each declare many distinct keys, fetch concurrency 1-2, slow reads and
+// an early failing read: more keys than the fetcher's task channel (capacity = #txs) can buffer, so
+// the error arrives while Fetch is still blocked handing keys to the workers.
+func c24GenWide(rt *rapid.T) c24Case {
+	b := genBlockCase(rt, genOpts{maxTxs: 0})
+	b.Rules.MaxActions = 4
+	ntx := rapid.IntRange(1, 2).Draw(rt, "widetxs")
+	exp := 1000 * ((b.Time + 999) / 1000)
+	for i := 0; i < ntx; i++ {
+		perm := rapid.Permutation(universe).Draw(rt, fmt.Sprintf("wkeys%d", i))
+		nk := rapid.IntRange(4, 10).Draw(rt, fmt.Sprintf("wnk%d", i))
+		tx := fixture.TxSpec{Sponsor: i, AuthStart: -1, AuthEnd: -1, Expiry: exp, MaxFee: ^uint64(0)}
+		for a := 0; a*3 < nk && a < 4; a++ {
+			act := fixture.ActSpec{Start: -1, End: -1, Nonce: uint64(100*i + a)}
+			for _, k := range perm[a*3 : min(nk, a*3+3)] {
+				act.Keys = append(act.Keys, fixture.KeyDecl{Key: k, Perm: 7})
+				act.Ops = append(act.Ops, fixture.Op{Kind: fixture.OpGet, Key: k})
+			}
+			tx.Actions = append(tx.Actions, act)
+		}
+		b.Txs = append(b.Txs, tx)
+	}
+	big := uint64(1) << 50
+	b.Balances = []*uint64{&big, &big, &big, &big}
+	b.Configs = []fixture.ExecConfig{{Cores: 1, Fetch: 1}, {Cores: rapid.SampledFrom([]int{1, 4}).Draw(rt, "wcores"), Fetch: rapid.SampledFrom([]int{1, 1, 2}).Draw(rt, "wfetch")}}
+	return c24Case{Block: b, Slow: true, FailNth: rapid.IntRange(4, 8).Draw(rt, "wfail")}
+}
+
 func c24Gen(rt *rapid.T) c24Case {
+	if rapid.IntRange(0, 7).Draw(rt, "wide") == 0 {
+		return c24GenWide(rt)
+	}
 	c := c24Case{Block: genBlockCase(rt, genOpts{maxTxs: 10, allowInvalid: false, allowSponsorK: true, oddPerms: false, yields: true})}
 	switch rapid.IntRange(0, 3).Draw(rt, "faultMode") {
 	case 1:
